@@ -24,4 +24,4 @@ def extra_checks(rep, tier):
 
 
 def contracts(tier):
-    return [c for c in C36.contracts(tier) if type(c).__name__ in ("ImmutableDecodeBlocks", "CRSDecode")]
+    return [c for c in C36.contracts(tier) if type(c).__name__ in ("ImmutableDecodeBlocks", "CRSDecode")] + [C46.GotShares(), C46.DesireOffsets()]
